@@ -4,6 +4,7 @@
 -/
 import Knx.Router
 import Props.C13
+import Knx.RouterBatch
 
 namespace Props.C14
 open Knx Knx.Rtr
@@ -269,5 +270,77 @@ theorem resend_paced (cfg : Cfg) (hp : cfg.pause > 0) :
 
 example : (fireAll { pause := 20, retain := 8 } 10 (St.mk (some 100) [.resend 7 [8, 9]] false [] [] true false false)).2 =
     [.tx 100 7, .tx 120 8, .tx 140 9] := by decide
+
+/-! ### A batch of resends in which the socket refuses particular telegrams (Knx.RtrF) -/
+namespace Batch
+open Knx.RtrF
+
+/-- what leaves the socket: the telegrams of the batch the socket accepts, in their original order,
+    nothing else - a refused write does not abandon the rest of the batch -/
+theorem resend_sent (cap : Nat) (fails : List Nat) : ∀ (batch r sent : List Nat),
+    (resendBatch cap fails batch r sent).2 = sent ++ batch.filter (fun p => !fails.contains p) := by
+  intro batch
+  induction batch with
+  | nil => intro r sent; simp [resendBatch]
+  | cons p ps ih =>
+    intro r sent
+    by_cases h : p ∈ fails
+    · simp [resendBatch, h, ih]
+    · simp [resendBatch, h, ih, List.append_assoc]
+
+/-- what is retained afterwards: what was retained below the batch, then exactly the telegrams that were
+    transmitted again (each pushed under the cap); refused ones are not retained -/
+theorem resend_retained (cap : Nat) (fails : List Nat) : ∀ (batch r sent : List Nat),
+    (resendBatch cap fails batch r sent).1 = (batch.filter (fun p => !fails.contains p)).foldl (pushRetain cap) r := by
+  intro batch
+  induction batch with
+  | nil => intro r sent; simp [resendBatch]
+  | cons p ps ih =>
+    intro r sent
+    by_cases h : p ∈ fails
+    · simp [resendBatch, h, ih]
+    · simp [resendBatch, h, ih]
+
+/-- a lost indication for `k` messages on the idle client: the transmissions are exactly the accepted
+    ones among the last min(k, retained) messages, in order -/
+theorem lost_resends_accepted (cap : Nat) (s : RtrF.St) (t k : Nat) :
+    (RtrF.step cap s t (.rlost k)).2 =
+      ((s.retained.drop (s.retained.length - min k s.retained.length)).filter (fun p => !s.fails.contains p)).map (.tx t ·) := by
+  simp only [RtrF.step]
+  rw [show (resendBatch cap s.fails (s.retained.drop (s.retained.length - min k s.retained.length))
+      (s.retained.take (s.retained.length - min k s.retained.length)) []).2 = _ from resend_sent _ _ _ _ _]
+  simp
+
+theorem foldl_pushRetain_length (cap : Nat) (hc : 0 < cap) : ∀ (l r : List Nat), r.length ≤ cap →
+    (l.foldl (pushRetain cap) r).length ≤ cap := by
+  intro l
+  induction l with
+  | nil => intro r h; simpa using h
+  | cons x xs ih => intro r h; exact ih _ (pushRetain_length cap r x hc h).1
+
+/-- the retained list never exceeds the cap, whatever is sent, lost or refused -/
+theorem retained_bounded (cap : Nat) (hc : 0 < cap) (s : RtrF.St) (t : Nat) (i : RtrF.In) (h : s.retained.length ≤ cap) :
+    (RtrF.step cap s t i).1.retained.length ≤ cap := by
+  cases i with
+  | send pid =>
+    simp only [RtrF.step]
+    split
+    · exact h
+    · exact (pushRetain_length cap _ _ hc h).1
+  | rlost k =>
+    simp only [RtrF.step]
+    rw [show (resendBatch cap s.fails (s.retained.drop (s.retained.length - min k s.retained.length))
+        (s.retained.take (s.retained.length - min k s.retained.length)) []).1 = _ from resend_retained _ _ _ _ _]
+    apply foldl_pushRetain_length cap hc
+    simp only [List.length_take]; omega
+  | failpid pid b => simpa [RtrF.step] using h
+  | tick => simpa [RtrF.step] using h
+
+/-- non-vacuity: five messages retained, the middle one of a batch of three refused -/
+example : (RtrF.step 8 { retained := [1, 2, 3, 4, 5], fails := [4] } 7 (.rlost 3)) =
+    ({ retained := [1, 2, 3, 5], fails := [4] }, [.tx 7 3, .tx 7 5]) := by decide
+
+end Batch
+
 
 end Props.C14
